@@ -159,7 +159,7 @@ func checkC12(c *Ctx) {
 		OnVec: func(raw []byte) {
 			var v progVec
 			VecDecode(raw, &v)
-			st2.Submit(Job{Kind: "run", Prog: symsToBytes(v.Text), Tag: string(raw)})
+			st2.Submit(Job{Kind: "run", Prog: symsToBytes(v.Text), Files: []FileIn{{Name: "in.json", Data: []byte("[3]")}}, Tag: string(raw)})
 		}})
 	st2.Wait()
 
